@@ -486,7 +486,7 @@ class GraphNode:
 
         outkey = leafs.pop()
         return Task(
-            key or outkey,
+            outkey if key is None else key,
             _execute_subgraph,
             {t.key: t for t in tasks},
             outkey,
@@ -548,7 +548,7 @@ class Alias(GraphNode):
                 raise RuntimeError(
                     f"Invalid substitution encountered {self.key!r} -> {sub_key}"
                 )
-            return Alias(key or sub_key, val)  # type: ignore [arg-type]
+            return Alias(sub_key if key is None else key, val)  # type: ignore [arg-type]
         if key is not None and key != self.key:
             # Rename only
             return Alias(key, self.target)
@@ -822,7 +822,7 @@ class Task(GraphNode):
                 for k, v in self.kwargs.items()
             }
             return type(self)(
-                key or self.key,
+                self.key if key is None else key,
                 self.func,
                 *new_args,
                 **new_kwargs,  # type: ignore[arg-type]
